@@ -367,6 +367,7 @@ func attrByName(n string) transaction.AttrType {
 func (w *World) prepTx(signers []neotest.Signer, h util.Uint160, method string, args ...any) *transaction.Transaction {
 	tx := w.e.NewUnsignedTx(w.t, h, method, args...)
 	tx.ValidUntilBlock = w.bc.BlockHeight() + 20
+	tx.NetworkFee = gas // on top of what the fee calculator adds: the preparation must not depend on its exactness
 	// explicit, generous system fee: a test invocation would be capped by the (possibly tiny) block system fee limit
 	return w.e.SignTx(w.t, tx, 4*gas, signers...)
 }
@@ -375,6 +376,7 @@ func (w *World) prepTx(signers []neotest.Signer, h util.Uint160, method string, 
 func (w *World) prepTxFee(sysfee int64, signers []neotest.Signer, h util.Uint160, method string, args ...any) *transaction.Transaction {
 	tx := w.e.NewUnsignedTx(w.t, h, method, args...)
 	tx.ValidUntilBlock = w.bc.BlockHeight() + 20
+	tx.NetworkFee = gas
 	return w.e.SignTx(w.t, tx, sysfee, signers...)
 }
 
